@@ -403,14 +403,14 @@ UREF_PIC_FLOW_FORMAT(monowhite, 1, { 1, 1, 1, "Y1", 1 });
  * From libavutil/pixfmt.h:
  * packed RGB 8:8:8, 32bpp, RGBXRGBX...  X=unused/undefined
  */
-UREF_PIC_FLOW_FORMAT(rgb0, 1, { 1, 1, 1, "r8g8b808", 32 });
+UREF_PIC_FLOW_FORMAT(rgb0, 1, { 1, 1, 4, "r8g8b808", 32 });
 
 /** @This is the description of the 0rgb format.
  *
  * from libavutil/pixfmt.h:
  * packed RGB 8:8:8, 32bpp, XRGBXRGB... X=unused/undefined
  */
-UREF_PIC_FLOW_FORMAT(0rgb, 1, { 1, 1, 1, "08r8g8b8", 32 });
+UREF_PIC_FLOW_FORMAT(0rgb, 1, { 1, 1, 4, "08r8g8b8", 32 });
 
 /** This is the description of the rgb565 format. */
 UREF_PIC_FLOW_FORMAT(rgb565, 1, { 1, 1, 2, "r5g6b5", 16 });
